@@ -640,6 +640,16 @@ func run(c *core.Ctx) {
 		)
 	}
 	vsched.SetReducedPoints(true) // points before every acquiring operation only (after the self-test)
+	if c.Args["only"] == "loader" {
+		// the job C12 runs: the graph loader under the scheduler (loader.go)
+		if _, e := loaderSchema(); e != "" {
+			c.HarnessError("loader scenario: the schema could not be built: %s", e)
+		} else if c.Next() && !c.Expired() {
+			c.Bound("loader", "one saved graph (8 numbers, a string, 3 images sharing a buffer) loaded and saved again; all interleavings of the loader's own goroutines, ThreadSanitizer per schedule")
+			schedlib.Explore(c, rl, loaderScenario())
+		}
+		return
+	}
 	for _, f := range fams {
 		ps := f.progs
 		if ps == nil {
@@ -673,6 +683,14 @@ func replay(c *core.Ctx) {
 	}
 	mapord.Pin()
 	vsched.SetReducedPoints(true)
+	var lc struct {
+		Scenario LoaderCase `json:"scenario"`
+	}
+	if json.Unmarshal(c.Replay, &lc) == nil && lc.Scenario.Loader {
+		loaderSchema()
+		schedlib.Replay(c, schedlib.NewRaceLog(), loaderScenario(), rc.Choices, rc.Bound)
+		return
+	}
 	schedlib.Replay(c, schedlib.NewRaceLog(), scenario(rc.Scenario.Via, rc.Scenario.Program, nil), rc.Choices, rc.Bound)
 	if autosaveFile != "" {
 		os.Remove(autosaveFile)
